@@ -33,6 +33,7 @@ type rewrite struct {
 var rewrites = []rewrite{
 	{"handlers/inmem/inmem.go", map[string]string{"sync": modPath + "/verifshim/vsync"}},
 	{"metrics/counters.go", map[string]string{"sync/atomic": modPath + "/verifshim/vatomic"}},
+	{"metrics/verif_export.go", map[string]string{"sync/atomic": modPath + "/verifshim/vatomic"}},
 	{"metrics/histograms.go", map[string]string{"sync": modPath + "/verifshim/vsync", "sync/atomic": modPath + "/verifshim/vatomic"}},
 	{"protocol/binprot/headers.go", map[string]string{"sync": modPath + "/verifshim/vsync"}},
 }
